@@ -258,6 +258,12 @@ func main() {
 				c.InParam(q)
 			}
 			procs[p.Name], owners[p.Name] = c, c
+		case "fcomb":
+			c := components.NewFileCombinator(wf, p.Name)
+			for _, q := range p.Ins {
+				c.In(q)
+			}
+			procs[p.Name], owners[p.Name] = c, c
 		case "substream":
 			c := components.NewStreamToSubStream(wf, p.Name)
 			procs[p.Name], owners[p.Name] = c, c
